@@ -232,6 +232,40 @@ def run(prog, check):
                  'every path to the file writer first rebuilds the variable / equation lists and then the iterator text' if ok else
                  'the file can be written without rebuilding the variable / equation lists and the iterator text: after a second '
                  'ParseString the module gets the new declarations and the old iterator', 'ParseString(block1); main(f1); ParseString(block2); main(f2)')
+    # a stated initial condition is pasted into the generated module as written (the in-process solver evaluates it as an
+    # expression): it is not put through float() first, which would drop every condition that is not a plain literal
+    for m_ in gen_cls.methods.values():
+        if not any(isinstance(n_, ast.Attribute) and n_.attr == 'InitialConditions' and isinstance(n_.ctx, ast.Load) for n_ in ast.walk(m_.node)):
+            continue
+        mf = flatten(prog, m_)
+        tainted = set()
+        grew = True
+        while grew:
+            grew = False
+            for n_ in ast.walk(mf.node):
+                src_, tg_ = None, []
+                if isinstance(n_, ast.Assign):
+                    src_, tg_ = n_.value, [x_.id for t_ in n_.targets for x_ in ast.walk(t_) if isinstance(x_, ast.Name)]
+                elif isinstance(n_, (ast.For, ast.comprehension)):
+                    src_, tg_ = n_.iter, [x_.id for x_ in ast.walk(n_.target) if isinstance(x_, ast.Name)]
+                if src_ is None:
+                    continue
+                hit = any((isinstance(x_, ast.Attribute) and x_.attr == 'InitialConditions') or (isinstance(x_, ast.Name) and x_.id in tainted)
+                          for x_ in ast.walk(src_))
+                for nm_ in tg_:
+                    if hit and nm_ not in tainted:
+                        tainted.add(nm_)
+                        grew = True
+        bad_f = [c_ for c_ in ast.walk(mf.node) if isinstance(c_, ast.Call) and isinstance(c_.func, ast.Name) and c_.func.id == 'float' and c_.args and
+                 any((isinstance(x_, ast.Name) and x_.id in tainted) or (isinstance(x_, ast.Attribute) and x_.attr == 'InitialConditions')
+                     for x_ in ast.walk(c_.args[0]))]
+        check.saw(m_)
+        check.ob('C20.R2', '%s::initial-condition-text-used-as-written' % m_.key, not bad_f,
+                 '%s:%d' % (mf.module.rel, bad_f[0].lineno) if bad_f else m_.where,
+                 'the initial-condition text reaches the generated module without a numeric conversion in between' if not bad_f else
+                 'the initial-condition text is tried with `%s` first: a condition written as an expression (0.4*200) is dropped and the '
+                 'generated module starts that variable elsewhere than the in-process solver' % unparse(bad_f[0])[:60],
+                 'H(0) = 0.4*200')
     go = gen_cls.methods.get('GenerateOrigVector')
     if go is not None:
         check.saw(go)
